@@ -17,7 +17,7 @@ import warnings
 
 from ..engine import REPO
 
-FORMATS = ["xyz", "sdf", "mol2", "pdb"]
+FORMATS = ["xyz", "sdf", "mol2", "pdb", "cube"]
 EXT = {"xyz": (".xyz",), "sdf": (".sdf",), "mol2": (".mol2",), "pdb": (".pdb",), "cube": (".cube", ".cub"),
        "gromacs": (".gro",)}
 CLASSES = ["ValueError", "IndexError", "KeyError", "StopIteration", "TypeError", "LoadError", "OverflowError",
@@ -222,6 +222,16 @@ def _generated(fmt: str) -> list[tuple[str, str]]:
             ("gen-noend", "REMARK x\nEND\nATOM      1 CL   UNK     1       1.000   2.000   3.000  0.50 10.00\n"
                           "ATOM      2      UNK     2       1.000   2.000   3.000  0.50 10.00          ZN\nENDMDL\n"
                           "ATOM      3  C   UNK     3       1.000   2.000   3.000  0.50 10.00\n"),
+        ],
+        "cube": [
+            ("gen-h2", "title\ncomment\n    2    0.000000    0.000000    0.000000\n"
+                       "    2    0.500000    0.000000    0.000000\n    1    0.000000    0.500000    0.000000\n"
+                       "    3    0.000000    0.000000    0.500000\n"
+                       "    1    1.000000    0.000000    0.000000    0.000000\n"
+                       "    1    0.000000    0.000000    0.000000    1.400000\n"
+                       "  1.0E-01  2.0E-01  3.0E-01\n  4.0E-01  5.0E-01  6.0E-01\n"),
+            ("gen-noatom", "t\n\n 0 0 0 0\n 1 1 0 0\n 1 0 1 0 trailing\n 2 0 0 1\n 1.5 -2.5 extra\nmore\n"),
+            ("gen-zero", "t\n\n 1 0 0 0\n 0 1 0 0\n 4 0 1 0\n 4 0 0 1\n 6 0.0 0 0 0\n"),
         ],
         "sdf": [
             ("gen-water", "water\n  iodata\n\n  3  2  0     0  0  0  0  0  0999 V2000\n"
